@@ -377,6 +377,8 @@ def instance_family(tier, which):
             add("ternary", names3, d2, TERNARY, [t])
         if tier != "quick":
             add("ternary+bin", names3, d2, TERNARY_PLUS, [TERN[1], B[2]])
+    elif which == "star4":
+        add("star4", ["v0", "v1", "v2", "v3"], d2, [("v0", "v1"), ("v0", "v2"), ("v0", "v3")], [B[2], B[0], B[4]], cost_opts=(None,))
     elif which == "chain4":
         add("chain4", ["v0", "v1", "v2", "v3"], d2, [("v0", "v1"), ("v1", "v2"), ("v2", "v3")], [B[2], B[0], B[4]], cost_opts=(None,))
     return out
